@@ -211,33 +211,37 @@ Qed.
 Definition live_keys (vols : vtable) : list Z := keys (filter (fun p => negb (v_fictive (snd p))) vols).
 
 Lemma gc_groups_spec vols cells groups :
-  (forall k v, In (k, v) vols -> v_fictive v = false -> exists c, lookup (vol_cell_id k v) cells = Some c) ->
+  (forall k v, In (k, v) vols -> v_fictive v = false ->
+     exists c i, lookup (vol_cell_id k v) cells = Some c /\ c_matint c = Some i) ->
   exists g, gc_groups vols cells groups = Ok g /\
     Permutation (List.concat (map snd g)) (List.concat (map snd groups) ++ live_keys vols) /\
     (forall n, In n (map fst g) ->
        In n (map fst groups) \/
        exists k v c, In (k, v) vols /\ v_fictive v = false /\
-                     lookup (vol_cell_id k v) cells = Some c /\ n = material_name c).
+                     lookup (vol_cell_id k v) cells = Some c /\ material_name c = Ok n).
 Proof.
   revert groups. induction vols as [|[k v] r IH]; intros groups H; simpl.
   - exists groups. unfold live_keys. simpl. rewrite app_nil_r. repeat split; [reflexivity|]. intros n Hn. left. assumption.
   - assert (Hr : forall k0 v0, In (k0, v0) r -> v_fictive v0 = false ->
-                 exists c, lookup (vol_cell_id k0 v0) cells = Some c).
+                 exists c i, lookup (vol_cell_id k0 v0) cells = Some c /\ c_matint c = Some i).
     { intros k0 v0 H0. apply H. right. assumption. }
     unfold live_keys. simpl. destruct (v_fictive v) eqn:Ef; simpl.
     + destruct (IH groups Hr) as [g [G1 [G2 G3]]]. exists g. repeat split; try assumption.
       intros n Hn. destruct (G3 n Hn) as [G|[k0 [v0 [c [A [B [C D]]]]]]]; [left; assumption|].
       right. exists k0, v0, c. repeat split; try assumption. right. assumption.
-    + destruct (H k v (or_introl eq_refl) Ef) as [c Hc].
+    + destruct (H k v (or_introl eq_refl) Ef) as [c [i [Hc Hi]]].
       unfold vol_cell_id in Hc. rewrite Hc.
-      destruct (IH (gc_add (material_name c) k groups) Hr) as [g [G1 [G2 G3]]].
+      assert (Hname : exists name, material_name c = Ok name).
+      { unfold material_name. rewrite Hi. eexists. reflexivity. }
+      destruct Hname as [name Hname]. rewrite Hname.
+      destruct (IH (gc_add name k groups) Hr) as [g [G1 [G2 G3]]].
       exists g. repeat split; [assumption| |].
       * eapply Permutation_trans; [exact G2|].
         eapply Permutation_trans; [apply Permutation_app_tail; apply gc_add_perm|].
         rewrite <- app_assoc. reflexivity.
       * intros n Hn. destruct (G3 n Hn) as [G|[k0 [v0 [c0 [A [B [C D]]]]]]].
         -- apply gc_add_names in G. destruct G as [G|G]; [|left; assumption].
-           right. exists k, v, c. repeat split; try assumption. left. reflexivity.
+           right. exists k, v, c. subst n. repeat split; try assumption. left. reflexivity.
         -- right. exists k0, v0, c0. repeat split; try assumption. right. assumption.
 Qed.
 
@@ -250,6 +254,7 @@ Proof.
   - unfold live_keys. simpl. destruct (v_fictive v) eqn:Ef; simpl.
     + apply IH. assumption.
     + destruct (lookup _ cells) as [c|]; [|discriminate].
+      destruct (material_name c) as [name|e]; [|discriminate].
       apply IH in H. eapply Permutation_trans; [exact H|].
       eapply Permutation_trans; [apply Permutation_app_tail; apply gc_add_perm|].
       rewrite <- app_assoc. reflexivity.
@@ -308,16 +313,20 @@ Proof.
   assert (Hgc : exists g, construct_geomcomp (w_vols w) (w_cells w) = Ok g /\
             Permutation (gc_listed g) (live_keys (w_vols w)) /\
             (forall l, In l g -> exists k v c, In (k, v) (w_vols w) /\ v_fictive v = false /\
-                lookup (vol_cell_id k v) (w_cells w) = Some c /\ gc_name l = ("m" +++ material_name c)%string) /\
+                lookup (vol_cell_id k v) (w_cells w) = Some c /\
+                exists n, material_name c = Ok n /\ gc_name l = ("m" +++ n)%string) /\
             Forall (fun l => gc_count l = N.of_nat (List.length (gc_vols l))) g).
   { destruct (gc_groups_spec (w_vols w) (w_cells w) []) as [g [G1 [G2 G3]]].
-    { intros k v A B. destruct (Hcells k v A B) as [c [C _]]. exists c. assumption. }
+    { intros k v A B. destruct (Hcells k v A B) as [c [C Hn]]. exists c.
+      unfold cell_named in Hn. destruct (c_density c) as [d|].
+      - destruct Hn as [key [m [c2 [cid [_ [M2 _]]]]]]. exists key. split; assumption.
+      - exists 0%Z. split; assumption. }
     unfold construct_geomcomp. rewrite G1. eexists. split; [reflexivity|]. repeat split.
     - unfold gc_listed. rewrite map_map. simpl. simpl in G2. exact G2.
     - intros l Hl. apply in_map_iff in Hl. destruct Hl as [[n ks] [<- Hl]]. simpl.
       destruct (G3 n) as [[]|[k [v [c [A [B [C D]]]]]]].
       { apply in_map_iff. exists (n, ks). split; [reflexivity|assumption]. }
-      exists k, v, c. subst n. repeat split; assumption.
+      exists k, v, c. repeat split; try assumption. exists n. split; [assumption|reflexivity].
     - apply Forall_forall. intros l Hl. apply in_map_iff in Hl. destruct Hl as [[n ks] [<- Hl]]. reflexivity. }
   destruct Hgc as [g [Hg1 [Hg2 [Hg3 Hg4]]]].
   set (vl := write_vols (w_vols w) (w_skipped w)).
@@ -375,14 +384,14 @@ Proof.
       { apply (Permutation_NoDup (Permutation_sym Hg2)). unfold live_keys. apply NoDup_keys_filter. assumption. }
       apply (proj1 (NoDup_count_occ' Z.eq_dec (gc_listed g)) Hnd k Hin).
     + unfold comps. destruct (w_skip_comp w); [exact I|].
-      intros l Hl. destruct (Hg3 l Hl) as [k [v [c [A [B [C D]]]]]]. rewrite D.
+      intros l Hl. destruct (Hg3 l Hl) as [k [v [c [A [B [C [n [Dn D]]]]]]]]. rewrite D.
       destruct (Hcells k v A B) as [c' [C' Hnamed]]. rewrite C in C'. inversion C'; subst c'.
-      unfold cell_named in Hnamed. unfold material_name.
+      unfold cell_named in Hnamed. unfold material_name in Dn.
       destruct (c_density c) as [d|] eqn:Ed.
       * destruct Hnamed as [key [m [c2 [cid [M1 [M2 [M3 [M4 [M5 M6]]]]]]]]].
-        rewrite M2. eapply write_compositions_names; [exact M1|].
+        rewrite M2 in Dn. inversion Dn; subst n. eapply write_compositions_names; [exact M1|].
         eapply comps_of_mat_has; try eassumption. intros [].
-      * rewrite Hnamed. apply write_compositions_m0.
+      * rewrite Hnamed in Dn. inversion Dn; subst n. apply write_compositions_m0.
   - destruct bc as [b|]; [|exact I]. destruct Hbc as [B1 B2]. split; [assumption|].
     intros p Hp. apply Hsurf_ids. apply B2. assumption. }
   destruct (if w_skip_bc w then Ok None else write_bc ren (u1 :: ur) (w_bcs w)) as [bc|e] eqn:Ebc.
